@@ -88,6 +88,8 @@ class Case:
         self.nconst = 0
         self.depth_max = depth_max
         self.simple = simple
+        # the handle's MPLEX look-back: unlimited, or none / 1 / 2 / 10 (default) cycles
+        self.lb = rng.choice([-1] * 6 + [0, 1, 2, 10])
         self.ref = None
         self.build()
 
@@ -489,6 +491,7 @@ def run_cases(cases, exe, drv, root, jobs=16, want_extents=False):
         lines = []
         for c in ch:
             lines.append("O %s" % c.dir)
+            lines.append("L %d" % getattr(c, "lb", -1))
             for (f, rt, s, n) in c.qs:
                 lines.append("G %s %d %d %d" % (f, rt, s, n))
             if want_extents:
@@ -501,7 +504,7 @@ def run_cases(cases, exe, drv, root, jobs=16, want_extents=False):
     def model_job(ch):
         lines = ["V " + VARIANT]
         for c in ch:
-            lines += c.drv
+            lines += c.drv + ["L %d" % getattr(c, "lb", -1)]
             for (f, rt, s, n) in c.qs:
                 lines.append("G %s %d %d %d" % (f, rt, s, n))
             if want_extents:
@@ -528,7 +531,7 @@ def run_cases(cases, exe, drv, root, jobs=16, want_extents=False):
             c.crashed = bl[-1].startswith("X ")
             body = bl[:-1]
             c.open_err = body[0].split()[1] if body and body[0].startswith("O ") else "crash"
-            ip = 1
+            ip = 2          # "O ..", "L"
             c.mres = []
             for q in c.qs:
                 mm = parse_model(ml[mp]) if mp < len(ml) else None
@@ -555,14 +558,16 @@ def run_cases(cases, exe, drv, root, jobs=16, want_extents=False):
             # a query that wrote past the caller's buffer may have damaged the heap: everything after it
             # in the same process is unreliable, so such cases are re-run query by query
             tainted = any(r[1]["over"] for r in c.res)
-            if c.crashed or tainted:
+            # with a finite look-back the documented result of a read also depends on the start value a
+            # previous read may have cached (gd_getdata(3)); those cases are judged call by call on fresh handles
+            if c.crashed or tainted or getattr(c, "lb", -1) != -1:
                 crashed.append(c)
     # second pass: every query of a crashed case in its own process
     if crashed:
         lines = []
         for c in crashed:
             for (f, rt, s, n) in c.qs:
-                lines += ["O %s" % c.dir, "G %s %d %d %d" % (f, rt, s, n), "C"]
+                lines += ["O %s" % c.dir, "L %d" % getattr(c, "lb", -1), "G %s %d %d %d" % (f, rt, s, n), "C"]
         rc, out = run_stream([exe], "\n".join(lines) + "\n", env=HENV)
         blocks = impl_blocks(out)
         bi = 0
@@ -574,11 +579,11 @@ def run_cases(cases, exe, drv, root, jobs=16, want_extents=False):
                 bi += 1
                 if mm is None:
                     continue
-                if bl[-1].startswith("X ") or len(bl) < 3:
+                if bl[-1].startswith("X ") or len(bl) < 4:
                     im = dict(CRASH)
                     c.single_crash += 1
                 else:
-                    im = parse_impl(bl[1]) or dict(CRASH)
+                    im = parse_impl(bl[2]) or dict(CRASH)
                 c.res.append((q, im, mm[0], mm[1], mm[2]))
     return problems
 
@@ -609,7 +614,8 @@ def judge(chk, cases, stats, exe=None):
         if len(getattr(c, "res", [])) == len(c.qs):
             for (i0, i1, i2, k) in getattr(c, "splits", []):
                 (qw, W, _, _, tw), (qa, Aa, _, _, ta), (qb, Bb, _, _, tb) = c.res[i0], c.res[i1], c.res[i2]
-                if any(x.get("crash") or x["err"] for x in (W, Aa, Bb)) or any(t in ("mplexrate", "mplexneg", "mplexseek") for t in tw + ta + tb):
+                if any(x.get("crash") or x["err"] for x in (W, Aa, Bb)) or any(t in ("mplexrate", "mplexneg", "mplexseek", "mplexnested") for t in tw + ta + tb) or (
+                        getattr(c, "lb", -1) != -1 and c.fields[[f[0] for f in c.fields].index(qw[0])][7]):     # finite look-back: the start matters, as documented
                     continue
                 stats["splits"] = stats.get("splits", 0) + 1
                 if Aa["count"] == k:
@@ -664,7 +670,7 @@ def judge(chk, cases, stats, exe=None):
                     extra = ""
                     # is it the call, or what earlier calls on this handle left behind?  Ask a fresh handle.
                     if exe is not None and os.path.isdir(getattr(c, "dir", "")):
-                        rc, out = run_stream([exe], "O %s\nG %s %d %d %d\nC\n" % (c.dir, q[0], q[1], q[2], q[3]), env=HENV)
+                        rc, out = run_stream([exe], "O %s\nL %d\nG %s %d %d %d\nC\n" % (c.dir, getattr(c, "lb", -1), q[0], q[1], q[2], q[3]), env=HENV)
                         ls = [l for l in out.split("\n") if l.startswith("G ")]
                         alone = parse_impl(ls[0]) if ls else None
                         if alone is not None and same(alone, spec, n, False):
@@ -688,7 +694,7 @@ def judge(chk, cases, stats, exe=None):
             if e_spec:
                 stats["uncovered_ok"] += 1
                 continue
-            judged = [t for t in tags if t != "mplexneg"]
+            judged = [t for t in tags if t not in ("mplexneg", "mplexnested")]     # implementation dependent by the Standards
             if not judged:
                 stats["unjudged"] += 1
                 continue
@@ -705,7 +711,7 @@ def judge(chk, cases, stats, exe=None):
                 # decide on the call alone, on a fresh handle
                 alone = None
                 if exe is not None and os.path.isdir(getattr(c, "dir", "")):
-                    rc, out = run_stream([exe], "O %s\nG %s %d %d %d\nC\n" % (c.dir, q[0], q[1], q[2], q[3]), env=HENV)
+                    rc, out = run_stream([exe], "O %s\nL %d\nG %s %d %d %d\nC\n" % (c.dir, getattr(c, "lb", -1), q[0], q[1], q[2], q[3]), env=HENV)
                     ls = [l for l in out.split("\n") if l.startswith("G ")]
                     alone = parse_impl(ls[0]) if ls else None
                 if alone is None or not same(alone, model, n, True):
@@ -733,6 +739,7 @@ def witness_cases(rng):
         c.qs = qs
         c.fields = [(q[0], "witness", 1, 1, False, False, False, False) for q in qs]
         c.raws = []
+        c.lb = -1
         return c
     h = lambda vals: " ".join("%x" % dbits(v) for v in vals)
     a8 = [1, 2, 3, 4, 5, 6, 7, 8]; b4 = [10, 20, 30, 40]
@@ -810,7 +817,7 @@ def main():
         "counts are far below GD_TRANSACTION_MAX and 2^31 (the (int) cast of num_samp2 and the 2^63 range checks are not modelled)",
         "real-valued data only (no COMPLEX64/128 RAW, no complex scalars, no representation suffixes)",
         "RAW files unencoded, gzip, bzip2, lzma or text per fragment (the model sees decoded samples; SIE/flac/slim/zzip not covered); LINTERP tables strictly increasing, entering the model as parsed rows",
-        "MPLEX look-back unlimited (gd_mplex_lookback(GD_LOOKBACK_ALL)); the last-sample cache is not modelled (each query is also correct without it)",
+        "MPLEX look-back per case: unlimited, 0, 1, 2 or 10 cycles (gd_mplex_lookback); the last-sample cache is not modelled: with an unlimited look-back each query is also correct without it (sequences on one handle check that), with a finite one the documented result depends on it and every call is made on a fresh handle",
         "first_sample >= 0 at the public entry (GD_HERE is C17's subject)",
         "samples at negative positions reaching an MPLEX are implementation dependent by dirfile-format(5) and not judged",
         "a value the model marks undefined (C undefined behaviour in a conversion, memory never written) is a wild card in comparisons",
